@@ -6,7 +6,8 @@ from props import ops1_common as oc
 def variants(scn):
     s = len(str(scn)) % 2
     return [dict(hot=h, tmap=t, profile="plain", salt=(s + i) % 2, form="pipe")
-            for i, (h, t) in enumerate([(True, "spread"), (False, "spread"), (True, "bunched"), (False, "same")])]
+            for i, (h, t) in enumerate([(True, "spread"), (False, "spread"), (True, "bunched"), (False, "same")])] + [
+        dict(hot=bool(s), tmap="spread", profile="falsy", salt=len(str(scn)) % 8, form="pipe")]   # "arbitrary values": one falsy decoding too (all rotations: C08)
 
 
 def run(tier):
@@ -20,6 +21,11 @@ def run(tier):
                "enumerated by TLC on Ops1.tla; each replayed hot and cold under 3 index->time maps; non-trivial = output "
                "values differ from the input values")
     oc.replay_groups(ck, groups, variants, k)
+    # comparers that are not equivalence relations need three values: |a - b| <= 1 on {0, 1, 2}
+    near = oc.export_groups(ck, [["distinct_near", "distinct_until_changed_near"]],
+                            dict(consts, NVals=3, MaxLen=4 if tier == "quick" else 5, Terms={"C"}), "export(non-transitive comparer)")
+    oc.replay_groups(ck, near, variants, 3)
+    groups = groups + near
     ck.nontrivial = sum(1 for g in groups if oc.nontrivial(*g))
     ck.note("scenarios", len(groups))
     ck.note("operators", sorted({g[0]["op"] for g in groups}))
